@@ -115,19 +115,19 @@ ADD4 = {
 # properties claimed in round 5 through spec fidelity + protocol tables over the specification
 CLAIMED.update({
  "C09": ("translation validation restricted to the Raft store (parse-tree comparison) + decision table over the specification's parse trees (truth-table comparison of path conditions) + bootstrap value-flow query",
-         "Linearizability itself (a predicate over all concurrent histories, schedules and crashes) is NOT decided. Decided are the two static halves of the argument that it holds for the implementation whenever it holds for the model-checked specification: KV-FIDELITY - every critical section of raftkvs.go (servers and client), every table entry and operator definition is the image of raftkvs.tla; RAFT-DECISION - a protocol table over raftkvs.tla itself (62 rows: quorum = strict majority, vote granting, term adoption, AppendEntries consistency check / truncate / append, match-index bookkeeping, commit of current-term entries agreed by a quorum, answers exactly for applied entries with the request's own index, the client's numbering / stale-response filter / retry conditions), compared as boolean functions of the guards' atoms, so an edit made consistently in the specification and the Go (fidelity intact) is still reported; RAFT-WIRING + LS-2PL + LS-CAP1 - the per-server state including the applied store is one copy shared by the five archetypes under 2PL.",
+         "Linearizability itself (a predicate over all concurrent histories, schedules and crashes) is NOT decided. Decided are the two static halves of the argument that it holds for the implementation whenever it holds for the model-checked specification: KV-FIDELITY - every critical section of raftkvs.go (servers and client), every table entry and operator definition is the image of raftkvs.tla; RAFT-DECISION - a protocol table over raftkvs.tla itself (about 90 rows incl. the label graph of the six archetypes: quorum = strict majority, vote granting, term adoption, AppendEntries consistency check / truncate / append, match-index bookkeeping, commit of current-term entries agreed by a quorum, answers exactly for applied entries with the request's own index, the client's numbering / stale-response filter / retry conditions), compared as boolean functions of the guards' atoms, so an edit made consistently in the specification and the Go (fidelity intact) is still reported; RAFT-WIRING + LS-2PL + LS-CAP1 - the per-server state including the applied store is one copy shared by the five archetypes under 2PL; NETLEN-WIRING - the client's length view observes its own mailboxes.",
          "trusts go/types, the checker's MPCal front end and the protocol table in checker/rules/spectables.go (a deliberate protocol change has to change the table); the safety of the tabled protocol is the specification's (model-checking) business",
          "DESIGN.md section 4, C09"),
  "C14": ("translation validation restricted to pbkvs + decision table over the specification's parse trees + a channel-capacity rule on the client front end",
-         "ConsistencyOK / linearizability over all schedules and crash sequences are NOT decided. Decided: PB-FIDELITY - pbkvs.go is section by section the image of pbkvs.tla; PB-DECISION - protocol table over pbkvs.tla (36 rows: answer only after every live backup acknowledged, replicate to every other replica, next version per Put, a new primary synchronises before serving and adopts strictly newer versions, backups apply only newer synchronisation values, clients filter by request id and retry only on detected failure), compared by truth table; RESP-RENDEZVOUS - the client front end's response channel has capacity 0, so the late answer of a timed-out request is never handed to the next call.",
+         "ConsistencyOK / linearizability over all schedules and crash sequences are NOT decided. Decided: PB-FIDELITY - pbkvs.go is section by section the image of pbkvs.tla; PB-DECISION - protocol table over pbkvs.tla (about 50 rows incl. the label graph: answer only after every live backup acknowledged, replicate to every other replica, next version per Put, a new primary synchronises before serving and adopts strictly newer versions, backups apply only newer synchronisation values, clients filter by request id and retry only on detected failure), compared by truth table; RESP-RENDEZVOUS - the client front end's response channel has capacity 0, so the late answer of a timed-out request is never handed to the next call; NETLEN-WIRING - the length view bound to netLen observes the mailboxes bound to net.",
          "trusts go/types, the checker's MPCal front end and the protocol table in checker/rules/spectables.go",
          "DESIGN.md section 4, C14"),
  "C15": ("translation validation restricted to locksvc + decision table over the specification's parse trees",
-         "Mutual exclusion / FIFO service over all interleavings are NOT decided. Decided: LOCK-FIDELITY - locksvc.go is section by section the image of locksvc.tla; LOCK-DECISION - protocol table over locksvc.tla (14 rows: grant at once exactly on an empty queue, append every requester, unlock pops the head and grants the new head, nothing else is sent, the client enters only on a grant), compared by truth table.",
+         "Mutual exclusion / FIFO service over all interleavings are NOT decided. Decided: LOCK-FIDELITY - locksvc.go is section by section the image of locksvc.tla; LOCK-DECISION - protocol table over locksvc.tla (16 rows incl. the label graph: grant at once exactly on an empty queue, append every requester, unlock pops the head and grants the new head, nothing else is sent, the client enters only on a grant), compared by truth table.",
          "trusts go/types, the checker's MPCal front end and the protocol table in checker/rules/spectables.go",
          "DESIGN.md section 4, C15"),
  "C16": ("translation validation restricted to the eight systems + decision tables over their specifications + the 2PC and CRDT value-type rules of C11/C12",
-         "The invariants over all schedules are NOT decided. Decided: SYS-FIDELITY - each of the eight generated systems is section by section the image of its specification (every assertion included); SYS-DECISION - protocol tables over the specifications (proxy: accepts only the awaited reply, gives up only on detected failure, reports failure after the last backend; queue / load balancer pairing; nested CRDT: first-touch snapshot, merge on commit, committed state only is broadcast; counters), compared by truth table; the 2PC rules (TPC-*) because the shared counter rests on the 2PC resource, and the CRDT value-type rules (CRDT-DECISION, MERGE-*, OPERAND-TRAVERSED, WRITE-*) because the CRDT systems' 'equal knowledge reads equal values, counters never decrease' rests on them.",
+         "The invariants over all schedules are NOT decided. Decided: SYS-FIDELITY - each of the eight generated systems is section by section the image of its specification (every assertion included); SYS-DECISION - protocol tables over the specifications (about 120 rows incl. the label graphs; proxy: accepts only the awaited reply, gives up only on detected failure, reports failure after the last backend; queue / load balancer pairing; nested CRDT: first-touch snapshot, merge on commit, committed state only is broadcast; replicated KV: minimum clock over all live clients, stability below every clock, stable requests popped and answered in order; counters), compared by truth table; the 2PC rules (TPC-*) because the shared counter rests on the 2PC resource, and the CRDT value-type rules (CRDT-DECISION, MERGE-*, OPERAND-TRAVERSED, WRITE-*) because the CRDT systems' 'equal knowledge reads equal values, counters never decrease' rests on them.",
          "trusts go/types, go/cfg, the checker's MPCal front end and the tables in checker/rules/spectables.go",
          "DESIGN.md section 4, C16"),
 })
